@@ -9,8 +9,10 @@ import (
 	"io/fs"
 	"math/big"
 	"os"
+	"runtime"
 	"syscall"
 	"testing"
+	"time"
 
 	"github.com/bytemare/secp256k1"
 	"github.com/bytemare/secp256k1/verifharness/gen"
@@ -30,6 +32,13 @@ type caseC18 struct {
 	// Reentrant: the entropy source is itself built on the library (a DRBG that hashes with HashToScalar, compares and
 	// multiplies inside Read): Random must not hold anything across the Read that those calls need.
 	Reentrant bool `json:"reentrant,omitempty"`
+	// Delegate: Read hands the buffer to ANOTHER goroutine to fill (an entropy daemon client) and garbage collections run while
+	// the caller is parked inside Read; the goroutine that calls Random has used a deep stack before (so the collector may move
+	// its stack meanwhile). A legal io.Reader: the buffer is not kept after Read returns.
+	Delegate bool `json:"delegate,omitempty"`
+	// SlowMs: the source blocks for this long before it delivers its first byte (a starved kernel pool, an HSM); fixed cases
+	// only: 300 ms, and 35 s in the thorough tier.
+	SlowMs int `json:"slow_ms,omitempty"`
 }
 
 type scriptedReader struct {
@@ -41,6 +50,8 @@ type scriptedReader struct {
 	style  string
 	reads  int
 	reent  bool
+	deleg  bool
+	slowMs int
 }
 
 var errEntropy = errors.New("scripted entropy failure")
@@ -53,7 +64,7 @@ func (timeoutErr) Temporary() bool { return true }
 
 // faultStyles are the error identities a failing source may present; whatever the identity, a block that was not
 // delivered completely must never be used.
-var faultStyles = []string{"err", "eof", "partial", "unexpected-eof", "eintr", "eagain", "wrapped-eintr", "path-eintr", "timeout", "closed"}
+var faultStyles = []string{"panic", "err", "eof", "partial", "unexpected-eof", "eintr", "eagain", "wrapped-eintr", "path-eintr", "timeout", "closed"}
 
 func faultError(style string) error {
 	switch style {
@@ -78,7 +89,41 @@ func faultError(style string) error {
 }
 
 func (r *scriptedReader) Read(p []byte) (int, error) {
+	if r.deleg {
+		type res struct {
+			n   int
+			err error
+			pnc any
+		}
+		done := make(chan res)
+		first := r.reads == 0
+		go func() {
+			var x res
+			inner := *r
+			inner.deleg = false
+			defer func() {
+				x.pnc = recover()
+				inner.deleg = true
+				*r = inner
+				done <- x
+			}()
+			runtime.Gosched()
+			x.n, x.err = inner.Read(p)
+		}()
+		if first {
+			runtime.GC() // the caller is parked in Read while the collector runs (and may shrink and move its stack)
+			runtime.GC()
+		}
+		x := <-done
+		if x.pnc != nil {
+			panic(x.pnc)
+		}
+		return x.n, x.err
+	}
 	r.reads++
+	if r.slowMs > 0 && r.reads == 1 {
+		time.Sleep(time.Duration(r.slowMs) * time.Millisecond)
+	}
 	if r.reent {
 		// library calls from inside the entropy source (results are not used: the stream stays the scripted one)
 		h := secp256k1.HashToScalar([]byte{byte(r.reads)}, []byte("VERIF-C18-reentrant-source"))
@@ -111,6 +156,9 @@ func (r *scriptedReader) Read(p []byte) (int, error) {
 		return n, nil
 	}
 	if r.pos >= limit {
+		if r.style == "panic" {
+			panic("scripted entropy source panics") // a caller-provided reader may panic; it unwinds through Random
+		}
 		return 0, ferr
 	}
 	n := r.chunks[r.ci%len(r.chunks)]
@@ -163,7 +211,7 @@ func isGoodBlock(v *big.Int) bool { return new(big.Int).Mod(v, ref.N).Sign() != 
 var c18 = gen.Register(&gen.Check[caseC18]{
 	Name: "C18/random",
 	Gen: func(t *rapid.T) caseC18 {
-		c := caseC18{Fault: -1, Prior: SVGen().Draw(t, "prior"), Reentrant: gen.Chance(t, "reentrant", 1, 50)}
+		c := caseC18{Fault: -1, Prior: SVGen().Draw(t, "prior"), Reentrant: gen.Chance(t, "reentrant", 1, 50), Delegate: gen.Chance(t, "delegate", 1, 1500)}
 		// zero or more bad blocks (0 or n), then a good one
 		nbad := 0
 		if gen.Chance(t, "hasBad", 1, 2) {
@@ -213,7 +261,13 @@ var c18 = gen.Register(&gen.Check[caseC18]{
 		tail := hex.EncodeToString(bytes.Repeat([]byte{0x11}, 64))
 		np1 := new(big.Int).Add(ref.N, bigOne)
 		max := new(big.Int).Sub(new(big.Int).Lsh(bigOne, 256), bigOne)
+		slow := 300
+		if os.Getenv("VERIF_TIER") == "thorough" {
+			slow = 35000
+		}
 		return []caseC18{
+			{Blocks: []string{h(big.NewInt(7))}, Tail: tail, Chunks: []int{32}, Fault: -1, Prior: p, SlowMs: slow},
+			{Blocks: []string{h(ref.N), h(big.NewInt(7))}, Tail: tail, Chunks: []int{16}, Fault: 40, Style: "err", Prior: p, SlowMs: slow},
 			{Blocks: []string{h(big.NewInt(7))}, Tail: tail, Chunks: []int{32}, Fault: -1, Prior: p},
 			{Blocks: []string{h(np1)}, Tail: tail, Chunks: []int{32}, Fault: -1, Prior: p},
 			{Blocks: []string{h(max)}, Tail: tail, Chunks: []int{1}, Fault: -1, Prior: p},
@@ -232,7 +286,7 @@ var c18 = gen.Register(&gen.Check[caseC18]{
 			{Blocks: append(repeatBlocks(h(ref.N), h(new(big.Int)), 300), h(big.NewInt(7))), Tail: tail, Chunks: []int{32}, Fault: -1, Prior: p},
 		}
 	},
-	Required: []string{"block>=n", "retry:zero", "retry:n", "fault:before", "fault:after", "chunked", "reentrant-source"},
+	Required: []string{"block>=n", "retry:zero", "retry:n", "fault:before", "fault:after", "chunked", "reentrant-source", "recovered-then-healthy-source", "source-filled-by-another-goroutine", "slow-source"},
 	Run: func(c caseC18, o *gen.Obs) error {
 		hostileCaller()
 		var stream []byte
@@ -269,8 +323,10 @@ var c18 = gen.Register(&gen.Check[caseC18]{
 		o.ClassIf(len(c.Blocks) > 64, "long-rejected-run")
 		o.NonTrivialIf(len(c.Blocks) > 1 || c.Fault >= 0 || gen.B(c.Blocks[0]).Cmp(ref.N) >= 0)
 
-		rd := &scriptedReader{stream: stream, chunks: c.Chunks, fault: c.Fault, style: c.Style, reent: c.Reentrant}
+		rd := &scriptedReader{stream: stream, chunks: c.Chunks, fault: c.Fault, style: c.Style, reent: c.Reentrant, deleg: c.Delegate, slowMs: c.SlowMs}
+		o.ClassIf(c.SlowMs > 0, "slow-source")
 		o.ClassIf(c.Reentrant, "reentrant-source")
+		o.ClassIf(c.Delegate, "source-filled-by-another-goroutine")
 		s := c.Prior.Build()
 		saved := rand.Reader
 		rand.Reader = rd
@@ -283,8 +339,29 @@ var c18 = gen.Register(&gen.Check[caseC18]{
 				rand.Reader = saved
 				pnc = recover()
 			}()
+			if c.Delegate {
+				// on a goroutine of its own, whose stack grew before and is almost unused now
+				fin := make(chan any, 1)
+				go func() {
+					defer func() { fin <- recover() }()
+					growStack(40)
+					ret = s.Random()
+				}()
+				if p := <-fin; p != nil {
+					panic(p)
+				}
+				return
+			}
 			ret = s.Random()
 		}()
+		if pnc != nil {
+			// a failing (or panicking) source made Random panic and the caller recovered: the package must be as usable as
+			// before - the next call, with a healthy source, returns the first acceptable block it is given
+			o.Class("recovered-then-healthy-source")
+			if err := randomAfterRecovery(c); err != nil {
+				return err
+			}
+		}
 		if expectPanic {
 			if pnc == nil {
 				return gen.Fail("Random/no-panic-on-failing-source", "source failed at byte %d (before the first usable block ended at %d) but Random returned %x", c.Fault, goodEnd, s.Encode())
@@ -312,6 +389,50 @@ var c18 = gen.Register(&gen.Check[caseC18]{
 		return nil
 	},
 })
+
+// randomAfterRecovery calls Random with a healthy source (the good block of the case, preceded by one block to skip) on
+// another goroutine with a deadline: after a recovered panic the call must neither block nor return anything else.
+func randomAfterRecovery(c caseC18) error {
+	good := gen.B(c.Blocks[len(c.Blocks)-1])
+	stream := append(make([]byte, 32), ref.Bytes32(good)...)
+	rd := &scriptedReader{stream: append(stream, bytes.Repeat([]byte{0x5a}, 256)...), chunks: []int{32}, fault: -1}
+	saved := rand.Reader
+	rand.Reader = rd
+	defer func() { rand.Reader = saved }()
+	type res struct {
+		enc []byte
+		pnc any
+	}
+	done := make(chan res, 1)
+	go func() {
+		var r res
+		defer func() {
+			r.pnc = recover()
+			done <- r
+		}()
+		r.enc = secp256k1.NewScalar().Random().Encode()
+	}()
+	select {
+	case r := <-done:
+		want := ref.Bytes32(new(big.Int).Mod(good, ref.N))
+		if r.pnc != nil || !bytes.Equal(r.enc, want) {
+			return gen.Fail("Random/after-recovered-panic", "after a recovered panic of Random, Random with a healthy source returned %x (panic: %v), want %x", r.enc, r.pnc, want)
+		}
+	case <-time.After(20 * time.Second):
+		return gen.Fail("Random/after-recovered-panic-blocks", "after a recovered panic of Random, Random with a healthy source did not return within 20 s")
+	}
+	return nil
+}
+
+//go:noinline
+func growStack(n int) byte {
+	var pad [2048]byte
+	pad[n] = byte(n)
+	if n == 0 {
+		return pad[0]
+	}
+	return growStack(n-1) + pad[n]
+}
 
 func TestC18Random(t *testing.T) { c18.Execute(t) }
 
